@@ -79,6 +79,12 @@ theorem inv_leave {p : Pool} (h : Inv11 p) (w : Nat) (x : Worker) (hx : p.worker
   rw [hw, hr]; omega
 
 /-- one resumption of a worker keeps the count exact -/
+theorem inv_nestSubmit {p : Pool} (h : Inv11 p) (t : Nat) : Inv11 (nestSubmit p t) := by
+  unfold nestSubmit; split <;> exact h
+
+theorem nestSubmit_state (p : Pool) (t : Nat) : (nestSubmit p t).state = p.state := by
+  unfold nestSubmit; split <;> rfl
+
 theorem inv_resumeWorker (f : Nat) (p : Pool) (w : Nat) (h : Inv11 p) : Inv11 (resumeWorker f p w) := by
   induction f generalizing p with
   | zero => exact h
@@ -108,6 +114,9 @@ theorem inv_resumeWorker (f : Nat) (p : Pool) (w : Nat) (h : Inv11 p) : Inv11 (r
               split <;> exact h2
             · exact ih _ (inv_setWorker_of h w x _ hx rfl (finish_workers _ _ _) (finish_running _ _ _))
             · exact ih _ (inv_setWorker_of h w x _ hx rfl (finish_workers _ _ _) (finish_running _ _ _))
+            · rename_i r hr
+              have h1 : Inv11 (setWorker p w { x with rest := r }) := inv_setWorker_same h w x _ hx rfl
+              exact ih _ (inv_nestSubmit h1 _)
             · exact inv_tryGrow (inv_leave h w x hx hal _ rfl rfl)
           · split
             · -- the worker leaves its loop: running − 1, one alive worker fewer
@@ -188,6 +197,7 @@ theorem resumeWorker_state (f : Nat) (p : Pool) (w : Nat) : (resumeWorker f p w)
             · simp only; split <;> simp only [tryGrow_state] <;> rfl
             · rw [ih]; exact finish_state _ _ _
             · rw [ih]; exact finish_state _ _ _
+            · rw [ih, nestSubmit_state]; rfl
             · simp only [tryGrow_state]; rfl
           · split
             · rfl
